@@ -36,6 +36,10 @@ static fp4_t f4x, f4y;
 static fp6_t f6x, f6y;
 static fp8_t f8x, f8y;
 static fp12_t f12x, f12y;
+/* the higher towers: plain coordinates only; a packed length is met through damage */
+#define HI_TOWERS(X) X(fp9, 9, 0, 0) X(fp16, 16, 1, 0) X(fp18, 18, 1, 12) X(fp24, 24, 1, 16) X(fp48, 48, 1, 32) X(fp54, 54, 1, 36)
+#define HI_DECL(T, N, P, K) static T##_t hx_##T, hy_##T;
+HI_TOWERS(HI_DECL)
 static fb_t bfx, bfy;
 static ep_t ex, ey;
 static ep2_t e2x, e2y;
@@ -195,6 +199,11 @@ static void gen_obj(const char *type, const char *g) {
 		} else {
 			for (int i = 0; i < 2; i++) { for (int j = 0; j < 3; j++) { gen_fp(f12x[i][j][0], g); gen_fp(f12x[i][j][1], g); } }
 		}
+#define HI_GEN(T, N, P, K) } else if (!strcmp(type, #T)) { \
+		static uint8_t tmp_[54 * RLC_FP_BYTES]; fp_t c_; fp_null(c_); fp_new(c_); \
+		for (int i = 0; i < N; i++) { gen_fp(c_, g); fp_write_bin(tmp_ + i * RLC_FP_BYTES, RLC_FP_BYTES, c_); } \
+		T##_read_bin(hx_##T, tmp_, (size_t)N * RLC_FP_BYTES); fp_free(c_);
+	HI_TOWERS(HI_GEN)
 	} else if (!strcmp(type, "fb")) {
 		if (!strcmp(g, "zero")) fb_zero(bfx);
 		else if (!strcmp(g, "one")) fb_set_dig(bfx, 1);
@@ -244,6 +253,10 @@ static long size_obj(const char *type, int fmt) {
 	if (!strcmp(type, "fp6")) return fp6_size_bin(f6x);
 	if (!strcmp(type, "fp8")) return fp8_size_bin(f8x, fmt);
 	if (!strcmp(type, "fp12")) return fp12_size_bin(f12x, fmt);
+#define HI_SIZE0(T) T##_size_bin(hx_##T)
+#define HI_SIZE1(T) T##_size_bin(hx_##T, fmt)
+#define HI_SIZE(T, N, P, K) if (!strcmp(type, #T)) return HI_SIZE##P(T);
+	HI_TOWERS(HI_SIZE)
 	if (!strcmp(type, "fb")) return RLC_FB_BYTES;
 	if (!strcmp(type, "ep")) return (long)ep_size_bin(ex, fmt);
 	if (!strcmp(type, "g1")) return (long)g1_size_bin(ex, fmt);
@@ -268,6 +281,10 @@ static void write_obj(const char *type, int fmt, uint8_t *buf, size_t len, int w
 	else if (!strcmp(type, "fp6")) fp6_write_bin(buf, len, which ? f6y : f6x);
 	else if (!strcmp(type, "fp8")) fp8_write_bin(buf, len, which ? f8y : f8x, fmt);
 	else if (!strcmp(type, "fp12")) fp12_write_bin(buf, len, which ? f12y : f12x, fmt);
+#define HI_WR0(T) T##_write_bin(buf, len, which ? hy_##T : hx_##T)
+#define HI_WR1(T) T##_write_bin(buf, len, which ? hy_##T : hx_##T, fmt)
+#define HI_WRITE(T, N, P, K) else if (!strcmp(type, #T)) HI_WR##P(T);
+	HI_TOWERS(HI_WRITE)
 	else if (!strcmp(type, "fb")) fb_write_bin(buf, len, which ? bfy : bfx);
 	else if (!strcmp(type, "ep")) ep_write_bin(buf, len, which ? ey : ex, fmt);
 	else if (!strcmp(type, "g1")) g1_write_bin(buf, len, which ? ey : ex, fmt);
@@ -290,6 +307,8 @@ static void read_obj(const char *type, const uint8_t *buf, size_t len) {
 	else if (!strcmp(type, "fp6")) fp6_read_bin(f6y, buf, len);
 	else if (!strcmp(type, "fp8")) fp8_read_bin(f8y, buf, len);
 	else if (!strcmp(type, "fp12")) fp12_read_bin(f12y, buf, len);
+#define HI_READ(T, N, P, K) else if (!strcmp(type, #T)) T##_read_bin(hy_##T, buf, len);
+	HI_TOWERS(HI_READ)
 	else if (!strcmp(type, "fb")) fb_read_bin(bfy, buf, len);
 	else if (!strcmp(type, "ep")) ep_read_bin(ey, buf, len);
 	else if (!strcmp(type, "g1")) g1_read_bin(ey, buf, len);
@@ -312,6 +331,8 @@ static int same_obj(const char *type) {
 	if (!strcmp(type, "fp6")) return fp6_cmp(f6x, f6y) == RLC_EQ;
 	if (!strcmp(type, "fp8")) return fp8_cmp(f8x, f8y) == RLC_EQ;
 	if (!strcmp(type, "fp12")) return fp12_cmp(f12x, f12y) == RLC_EQ;
+#define HI_SAME(T, N, P, K) if (!strcmp(type, #T)) return T##_cmp(hx_##T, hy_##T) == RLC_EQ;
+	HI_TOWERS(HI_SAME)
 	if (!strcmp(type, "fb")) return fb_cmp(bfx, bfy) == RLC_EQ;
 	if (!strcmp(type, "ep") || !strcmp(type, "g1")) return ep_cmp(ex, ey) == RLC_EQ;
 	if (!strcmp(type, "ep2") || !strcmp(type, "g2")) return ep2_cmp(e2x, e2y) == RLC_EQ;
@@ -332,6 +353,8 @@ static int fmt_of_len(const char *type, size_t len) {
 	if (!strcmp(type, "fp2")) return len == RLC_FP_BYTES + 1;
 	if (!strcmp(type, "fp8")) return len != 8 * RLC_FP_BYTES;
 	if (!strcmp(type, "fp12") || !strcmp(type, "gt")) return len == 8 * RLC_FP_BYTES;
+#define HI_FMT(T, N, P, K) if (!strcmp(type, #T)) return K != 0 && len == (size_t)K * RLC_FP_BYTES;
+	HI_TOWERS(HI_FMT)
 	return 0;
 }
 
@@ -357,6 +380,8 @@ static void engine_boot(void) {
 	fp6_null(f6x); fp6_null(f6y); fp6_new(f6x); fp6_new(f6y);
 	fp8_null(f8x); fp8_null(f8y); fp8_new(f8x); fp8_new(f8y);
 	fp12_null(f12x); fp12_null(f12y); fp12_new(f12x); fp12_new(f12y);
+#define HI_INIT(T, N, P, K) T##_null(hx_##T); T##_null(hy_##T); T##_new(hx_##T); T##_new(hy_##T);
+	HI_TOWERS(HI_INIT)
 	fb_null(bfx); fb_null(bfy); fb_new(bfx); fb_new(bfy);
 	ep_null(ex); ep_null(ey); ep_new(ex); ep_new(ey);
 	ep2_null(e2x); ep2_null(e2y); ep2_new(e2x); ep2_new(e2y);
@@ -601,6 +626,11 @@ static void engine_run(void) {
 			const char *type = tok[2];
 			if (!slots[s].used || !type_ok(type)) { tr_printf("DEC %d %s none\n", s, type); continue; }
 			size_t len = slots[s].len;
+			/* the packed (cyclotomic) forms of the towers of degree 18..54 need the arithmetic of a pairing-friendly
+			 * prime of that embedding degree, which none of the configured primes is (relic hard-codes their
+			 * Frobenius constants): an encoding of exactly that length is not handed to the decoder */
+#define HI_SKIP(T, N, P, K) if (!strcmp(type, #T) && K != 0 && len == (size_t)K * RLC_FP_BYTES) { tr_printf("DEC %d %s none\n", s, type); continue; }
+			HI_TOWERS(HI_SKIP)
 			/* exact-size heap copy: an over-read is an ASan report */
 			uint8_t *in = (uint8_t *)malloc(len ? len : 1);
 			memcpy(in, slots[s].p, len);
